@@ -32,11 +32,11 @@ SEEDS_DIR = os.path.join(os.path.dirname(os.path.abspath(__file__)), "seeds")
 
 # modules whose source the rules of a property read
 PROP_FILES: Dict[str, List[str]] = {
-    "C01": ["rdp", "linear_fit"], "C02": ["multi_knee", "curvature", "dfdt", "menger", "lmethod", "kneedle"],
+    "C01": ["rdp", "linear_fit"], "C02": ["multi_knee", "curvature", "dfdt", "menger", "lmethod", "kneedle", "linear_fit", "metrics"],
     "C04": ["rdp", "linear_fit", "metrics"], "C05": ["rdp", "linear_fit"], "C06": ["rdp", "evaluation"], "C07": ["rdp"],
-    "C08": ["postprocessing", "knee_ranking", "convex_hull"], "C09": ["curvature", "dfdt", "menger", "lmethod"], "C10": ["zmethod"],
-    "C11": ["clustering"], "C12": ["postprocessing", "knee_ranking", "convex_hull"], "C13": ["postprocessing", "knee_ranking"],
-    "C14": ["postprocessing"], "C15": ["evaluation", "linear_fit", "metrics"], "C16": ["metrics", "linear_fit"],
+    "C08": ["postprocessing", "knee_ranking", "convex_hull", "rdp"], "C09": ["curvature", "dfdt", "menger", "lmethod"], "C10": ["zmethod"],
+    "C11": ["clustering"], "C12": ["postprocessing", "knee_ranking", "convex_hull", "linear_fit"], "C13": ["postprocessing", "knee_ranking"],
+    "C14": ["postprocessing", "rdp"], "C15": ["evaluation", "linear_fit", "metrics"], "C16": ["metrics", "linear_fit"],
     "C17": ["linear_fit", "knee_ranking", "menger", "postprocessing"], "C18": ["convex_hull"], "C19": ["evaluation"],
     "C20": ["rdp", "kneedle", "convex_hull", "evaluation", "zmethod", "postprocessing", "linear_fit"],
 }
